@@ -10,19 +10,19 @@ checks = {
  "C01": ("conc+types", "exploration", "generated programs x generated schedules, deadlock / self-wait / no-progress oracles (property-based, schedule fuzzing)",
    "Deadlock freedom is a for-all-schedules, for-all-programs claim; the check explores tens of thousands of (program, schedule) pairs per run with an exact deadlock oracle (no timers). It cannot prove absence; it reaches the arrangements and interleavings the suite never runs.",
    "Schedules are explored at raw-lock-operation granularity with one logical thread running at a time; the verification raw locks are the ground truth for 'waits' and 'holds'; bounded programs (1-4 threads, 1-3 acquisitions, 2-5 leaves). The single-thread clause about collections changed after the duplicate check is decided at compile time by 14 generated twin/offending programs (TYPES engine)."),
- "C02": ("seq+conc", "exploration", "property-based: held-at-use, routing, shadow-version continuity oracles over generated shapes and schedules",
+ "C02": ("seq+conc+types", "exploration", "property-based: held-at-use, routing, shadow-version continuity oracles over generated shapes and schedules",
    "Mutual exclusion and per-position routing are checked at every dereference against the owner table (independent of schedule luck) over all collection shapes; CONC adds adversarial switches inside sections.",
    "Owner table of the verification raw locks is the ground truth; payload ids identify leaves; one logical thread runs at a time."),
- "C03": ("seq+conc", "exploration", "model-based stateful PBT over acquire/release histories; oracle at first raw op of every acquisition and at every key hand-back",
+ "C03": ("seq+conc+types", "exploration", "model-based stateful PBT over acquire/release histories; oracle at first raw op of every acquisition and at every key hand-back",
    "Total allocation quantifies over all API compositions incl. error paths; generated histories with an exact held-set oracle reach those compositions.",
    "Sequential histories (1-2 threads, <= 14 steps); held-set read from the auditing raw locks."),
  "C04": ("seq+conc", "exploration", "model-based PBT: held multiset vs. leaf multiset of the spec after every acquisition, try_* never waits, closure count",
    "All-or-nothing is checked after every generated acquisition over kinds x containers x nestings x pre-held patterns, including the rollback of every failing position.",
    "Reference semantics of a collection spec (flattened leaves) is the harness's own model; phantom holders emulate other threads in quiescent states."),
- "C05": ("seq+conc", "exploration", "release audit in the raw locks (foreign / double / wrong-mode / not-held), release parity per call, all-free-at-end",
+ "C05": ("seq+conc+types", "exploration", "release audit in the raw locks (foreign / double / wrong-mode / not-held), release parity per call, all-free-at-end",
    "A wrong release is silent with parking_lot; the auditing raw lock makes every release checkable on every generated path.",
    "Audit compares every raw unlock with the owner table; leaked (mem::forget) holds are tracked by the model."),
- "C06": ("seq", "exploration", "model-based stateful PBT: ThreadKey::get() probed after every step and inside every closure against a key-alive model",
+ "C06": ("seq+types", "exploration", "model-based stateful PBT: ThreadKey::get() probed after every step and inside every closure against a key-alive model",
    "One-key-per-thread is a property of every history of key-carrying values; a reference model plus generated histories found a real defect at history length 3.",
    "Model of 'alive' follows the property text; two logical threads at step granularity."),
  "C07": ("seq+types", "exploration", "differential against a reference duplicate model over generated member lists (random + exhaustive <= 5 over 4 leaves); rustc verdicts for unchecked ctors",
@@ -31,7 +31,7 @@ checks = {
  "C08": ("seq+conc", "exploration", "metamorphic: blocking acquisition sequences of differently arranged sorting collections must agree pairwise (acyclic precedence), be stable, keep owned groups contiguous",
    "Acquisition order is invisible with real locks; the tracing raw lock exposes it and the metamorphic relation needs no knowledge of the actual sort key.",
    "Only relative order is asserted (not address order); sequences come from the trace of blocking raw acquisitions."),
- "C09": ("conc", "exploration", "generated contenders x schedules; oracle: nothing held (outside the awaited lock's owned group) whenever a retrying call's blocking request is not grantable; completion under run-to-block",
+ "C09": ("conc+seq", "exploration", "generated contenders x schedules; oracle: nothing held (outside the awaited lock's owned group) whenever a retrying call's blocking request is not grantable; completion under run-to-block",
    "Hold-and-wait depends on which member is contended when; the scheduler-owned exploration checks the condition at every blocking point.",
    "Retry depth bounded by the schedule prefix (<= 48 choices) then run-to-block; 'eventually completes' is checked as bounded liveness."),
  "C10": ("seq+conc", "exploration", "model-based stateful PBT with a 3-state poison model per wrapper (Clean / Poisoned / Unspecified)",
@@ -43,7 +43,7 @@ checks = {
  "C12": ("seq", "fault_enumeration", "fault enumeration: one-shot panic at EVERY raw-operation index of generated base cases + persistent evil-lock fault sets; trace oracle",
    "Which lock leaks depends on the index of the failing raw operation relative to the algorithm's bookkeeping, so every index is a separate case; enumeration per base case is complete, base cases are generated.",
    "Fault model: a faulted raw operation has no effect on lock state (as the repository's evil_* locks)."),
- "C13": ("seq", "exploration", "differential against a reference table (try outcome iff grantable) with phantom holders, state-unchanged oracle, a try that waits or releases a foreign hold is a finding",
+ "C13": ("seq+types", "exploration", "differential against a reference table (try outcome iff grantable) with phantom holders, state-unchanged oracle, a try that waits or releases a foreign hold is a finding",
    "Exactness over every held pattern / mode / shape; the reference is three lines of table lookup.",
    "Quiescent states only (phantom holders never move); nothing runs concurrently."),
  "C14": ("types", "exploration", "grammar-generated twin/offending program pairs, rustc as oracle, error location must be the marked region",
@@ -55,7 +55,7 @@ checks = {
  "C16": ("drops", "exploration", "drop-counting payloads + value round-trip oracle over generated construction/destruction plans; quarantine allocator turns double frees into findings; thorough: the same plans under libFuzzer with AddressSanitizer / LeakSanitizer",
    "Drop-exactly-once through the boxed collection's raw-pointer ownership is invisible to value assertions; generated plans cover every ctor/dtor path x container x leaf.",
    "Drop table per scenario; frees are quarantined during a scenario so a double free is recorded instead of corrupting the heap."),
- "C17": ("seq", "exploration", "model-based PBT: non-acquiring operations under every hold pattern incl. the caller's own guard / closure; no-wait + owner-table-unchanged + no-foreign-release oracle",
+ "C17": ("seq+conc", "exploration", "model-based PBT: non-acquiring operations under every hold pattern incl. the caller's own guard / closure; no-wait + owner-table-unchanged + no-foreign-release oracle",
    "A transient try/unlock or a would-be block is invisible with parking_lot unless it hangs; the auditing lock sees both (it found Debug unlocking a held Mutex).",
    "Transient try+unlock pairs inside Debug are allowed when they restore the state."),
 }
@@ -70,9 +70,9 @@ m = {
    "add_only": True,
  },
  "engines": [
-   {"name": "seq", "path": "harness/src/{interp,engine,gen,world,exec,vlock}.rs", "serves_properties": ["C02","C03","C04","C05","C06","C07","C08","C10","C11","C12","C13","C17"], "kind_free_text": seq},
-   {"name": "conc", "path": "harness/src/{exec,engine,gen}.rs", "serves_properties": ["C01","C02","C03","C04","C05","C08","C09","C10","C11"], "kind_free_text": conc},
-   {"name": "types", "path": "harness/src/tyeng.rs", "serves_properties": ["C01","C07","C14","C15"], "kind_free_text": types},
+   {"name": "seq", "path": "harness/src/{interp,engine,gen,world,exec,vlock}.rs", "serves_properties": ["C02","C03","C04","C05","C06","C07","C08","C09","C10","C11","C12","C13","C17"], "kind_free_text": seq},
+   {"name": "conc", "path": "harness/src/{exec,engine,gen}.rs", "serves_properties": ["C01","C02","C03","C04","C05","C08","C09","C10","C11","C17"], "kind_free_text": conc},
+   {"name": "types", "path": "harness/src/{tyeng,surface}.rs", "serves_properties": ["C01","C02","C03","C05","C06","C07","C13","C14","C15"], "kind_free_text": types + "; part of the families is generated from the public API of the tree under test (cargo rustdoc JSON): methods of hold types, constructors, key-less accessors"},
    {"name": "fuzz", "path": "fuzz/fuzz/fuzz_targets/{fuzz_seq,fuzz_conc,fuzz_eval}.rs, tools/fuzz.sh", "serves_properties": ["C01","C02","C03","C04","C05","C06","C07","C08","C09","C10","C11","C12","C13","C16","C17"], "kind_free_text": "libFuzzer (cargo-fuzz, ASan + LSan) over the same byte decoders, evaluators and oracles; thorough tier only, amplification; for C16 a reproduced sanitizer report is a violation (replay = the saved input)"},
    {"name": "drops", "path": "harness/src/{drops,quarantine}.rs", "serves_properties": ["C16"], "kind_free_text": "typed construction/destruction scenarios with drop-counting payloads"},
  ],
